@@ -446,7 +446,18 @@ def same_labels(got, exp):
     return g == e
 
 
-def expect_array(res, dims, labels, valfun, what, tol=False, sig=None, da=None):
+def _pykind(labels):
+    ts = set(type(pyscalar(x)) for x in labels)
+    if ts == {int}:
+        return "i"
+    if ts == {float}:
+        return "f"
+    if ts == {str}:
+        return "s"
+    return None
+
+
+def expect_array(res, dims, labels, valfun, what, tol=False, sig=None, da=None, label_kinds=True):
     """`res` must be a DimArray with exactly these dims and labels and valfun(coord dict) at every
     coordinate.  valfun receives {dim: label}."""
     da = da or env.import_dimarray()
@@ -460,6 +471,12 @@ def expect_array(res, dims, labels, valfun, what, tol=False, sig=None, da=None):
         check(same_labels(res.axes[i].values, labels[i]), "labels",
               {"what": what, "dim": d, "got": jsonable(res.axes[i].values), "expected": jsonable(labels[i])}, sig)
         check(res.axes[d] is res.axes[i], "axis-by-name-differs-from-axis-by-position", {"what": what, "dim": d, "by_name": res.axes[d].name}, sig)
+        # labels are compared by value above (2 == 2.0); their kind counts too: integer labels do not come back as floats or strings
+        ek = _pykind(labels[i]) if label_kinds and len(labels[i]) else None
+        if ek is not None:
+            gk = res.axes[i].values.dtype.kind
+            gk = "i" if gk in "iu" else ("s" if gk in "OUS" else gk)
+            check(gk == ek, "label-kind", {"what": what, "dim": d, "got_dtype": str(res.axes[i].values.dtype), "expected_kind": ek, "labels": jsonable(labels[i])}, sig)
     check(tuple(res.values.shape) == tuple(len(l) for l in labels), "shape",
           {"what": what, "got": list(res.values.shape), "expected": [len(l) for l in labels]}, sig)
     import itertools
